@@ -62,10 +62,13 @@ type State struct {
 	snaps  map[string]*State // named snapshots (immutable), see contract clause `snapshot`
 	dead   bool // path condition is syntactically false
 	epoch  int // bumped by havoc-all: memories first touched afterwards are unrelated to their entry values
+	// unknownCallee: this path has called code without a contract (all memory havoced): what follows can rarely be
+	// proved, so its obligations get the first solver tier only (the function is reported as degraded anyway)
+	unknownCallee bool
 }
 
 func (s *State) clone() *State {
-	n := &State{vars: make(map[types.Object]Term, len(s.vars)), mem: make(map[string]Term, len(s.mem)), alloc: s.alloc, epoch: s.epoch, dead: s.dead}
+	n := &State{vars: make(map[types.Object]Term, len(s.vars)), mem: make(map[string]Term, len(s.mem)), alloc: s.alloc, epoch: s.epoch, dead: s.dead, unknownCallee: s.unknownCallee}
 	for k, v := range s.vars {
 		n.vars[k] = v
 	}
@@ -115,6 +118,7 @@ type Obligation struct {
 	Tried   []string `json:"tried,omitempty"`
 	Inputs  map[string]string `json:"inputs,omitempty"` // model values of named inputs (get-value)
 	getvals []string
+	quickOnly bool
 }
 
 // Exec verifies one function.
@@ -208,6 +212,7 @@ func (x *Exec) oblige(st *State, kind, label string, n ast.Node, goal string) {
 	o.query = x.ctx.render(b.String()) + b.String()
 	o.Size = len(o.query)
 	o.getvals = append([]string(nil), x.inputs...)
+	o.quickOnly = st.unknownCallee
 	x.obls = append(x.obls, o)
 }
 
